@@ -44,6 +44,9 @@ def spec_items(tier):
     # fans and corridors only: probabilities of 1e-6 / 1e-9 are below the resolution of the planner's own 1e-10 tie tests
     yield from (it for it in build.edge_mdps() if it[5] > 0 and not any(p not in (0, 1) and (p < F(1, 100) or p > F(99, 100))
                                                                 for row in it[2] for _, d, _ in row for _, p in d))
+    # discount close to 1 / many self-loops: the evaluation system is badly scaled (rows of size 1-gamma)
+    yield from build.enum_mdps(3, [('a',)], 0, [F(1), F(-1)], [()], [build.INIT_MENU[3][1]], [F(99, 100)], nonpositive_when_undiscounted=False)
+    yield from build.enum_mdps(4, [('a',)], 0, [F(1)], [()], [build.INIT_MENU[4][1]], [F(9, 10)], nonpositive_when_undiscounted=False)
     if tier == 'quick':
         yield from build.enum_mdps(2, AS, 1, R3, [(), (1,)], [build.INIT_MENU[2][2]], [F(9, 10), F(1)],
                                    nonpositive_when_undiscounted=False)
